@@ -19,9 +19,9 @@ prop("C02", "exploration",
      "Levels Default/Better/Best are unimplemented!() and outside 'every implemented level'.",
      "runtime monitoring: round trip through two independent decoders, workload steered by hooked encoder events")
 prop("C03", "exploration",
-     "Hostile inputs - mutations of ~500 valid seed frames (random and field-directed: the frame walker locates descriptor, block headers, literals headers, jump tables, Huffman/FSE descriptions, mode bytes, sequence counts, bitstreams, structural boundaries), 38 hostile synthesised plans (stale-state family, over-long blocks, out-of-range offsets), splices, random bytes, hostile dictionaries - through 11 entry points with legal call sequences (drain/query/reset after errors, abandon at 64 MiB of output), followed by a known-good frame on the same decoder. Oracles: panic capture, CPU budget + watchdog that confirms hangs in a child process, ASan build, Miri on small frames.",
+     "Hostile inputs - mutations of ~500 valid seed frames (random and field-directed: the frame walker locates descriptor, block headers, literals headers, jump tables, Huffman/FSE descriptions, mode bytes, sequence counts, bitstreams, structural boundaries), 38 hostile synthesised plans (stale-state family, over-long blocks, out-of-range offsets), splices, random bytes, hostile dictionaries - through 11 entry points with legal call sequences (drain/query/reset after errors, abandon at 64 MiB of output), followed by a known-good frame on the same decoder. Oracles: panic capture, CPU budget + watchdog that confirms hangs in a child process, ASan build, Miri on small frames. A libFuzzer target (harness/fz decode: ASan + debug assertions, 16 forks, seeded with the synthesised matrices) generates further inputs under coverage guidance; its artifacts are re-judged by the native monitor before anything is reported. A third of all cases run on a decoder that has already decoded valid frames.",
      "Absence of UB only on executed paths. Most cases run with set_max_window_size(8 MiB), a fixed share with the default limit.",
-     "runtime monitoring: fault injection on inputs with panic/CPU/sanitizer/interpreter oracles")
+     "runtime monitoring: fault injection on inputs (random, field-directed and coverage-guided by libFuzzer) with panic/CPU/sanitizer/interpreter oracles")
 prop("C05", "exploration",
      "Per decode call, in capped child processes: growth of the held decoded bytes (hook verif_buffer_len) against budget + 128 KiB, absolute held bytes after StreamingDecoder::read against window + request + 128 KiB, acceptance of any block regenerating more than 128 KiB, peak live heap (counting allocator) against 4*(window + budget + 256 KiB) + 16 MiB. Workload: well-formed bombs (thousands of zero-bit RLE-mode sequences of maximal match length, 1 MiB RLE/raw literals, 200 KiB Huffman literals, 128 KiB + 1 blocks) x five drivers, and benign reference frames at window logs 10..26 plus the synthesised feature matrix (no false alarms).",
      "The heap envelope is linear (x4) and checked on fresh decoders only; a child that hits the 1 GiB allocation cap identifies the case that broke the bound.",
@@ -67,9 +67,9 @@ prop("C18", "exploration",
      "Interrupted is injected only on decoder sources and compressor drains (the compressor unwraps errors of its source in every build).",
      "runtime monitoring: offline comparison of recorded digest logs from four builds")
 prop("C04", "exploration",
-     "The real RingBuffer and DecodeBuffer (reached through feature gated wrappers) are driven with exactly the operations the decoder issues while an online checker compares them with a VecDeque/Vec byte queue after every operation (contents, len, free, slice lengths from (cap, head, tail), position invariants 1-4, cap == size of the live allocation, guard bytes around the allocation, poison value = never written byte showing up in live data, XXH64 over drained bytes). Workload: every (cap, head, tail) state of capacities 17/33/65 x every operation x every operand (exhaustive small scope, ~5M transitions), random histories with growth, random DecodeBuffer histories incl. dictionary straddle and short / failing sinks. The same workload runs in a debug-assertion build, under AddressSanitizer and (smaller) under Miri, which are the oracles for out-of-bounds / uninitialised / provenance errors on the executed paths.",
+     "The real RingBuffer and DecodeBuffer (reached through feature gated wrappers) are driven with exactly the operations the decoder issues while an online checker compares them with a VecDeque/Vec byte queue after every operation (contents, len, free, slice lengths from (cap, head, tail), position invariants 1-4, cap == size of the live allocation, guard bytes around the allocation, poison value = never written byte showing up in live data, XXH64 over drained bytes). Workload: every (cap, head, tail) state of capacities 17/33/65 x every operation x every operand (exhaustive small scope, ~5M transitions), random histories with growth, random DecodeBuffer histories incl. dictionary straddle and short / failing sinks. The same workload runs in a debug-assertion build, under AddressSanitizer and (smaller) under Miri, which are the oracles for out-of-bounds / uninitialised / provenance errors on the executed paths; a libFuzzer target (harness/fz ring) lets coverage guidance choose the decisions of the same workloads (ASan + model comparison after every operation).",
      "Held on the operations and states executed, not a proof for all capacities. Trusted: VecDeque model, wlcore checker, Miri/ASan. Preconditions of the unsafe API are respected (calls outside them would be false alarms).",
-     "runtime monitoring: online model comparison + invariant checks after every operation, poisoning/guard allocator, ASan, Miri")
+     "runtime monitoring: online model comparison + invariant checks after every operation, poisoning/guard allocator, ASan, Miri, coverage-guided workload (libFuzzer)")
 prop("C11", "exploration",
      "Complete matrix of all 256 window descriptors and 63 single-segment content sizes (every field width, around every boundary) x 9 limit classes (0, 1 KiB, W-1, W, W+1, default, 2^31, format maximum, u64::MAX) x position in the decoder's history (first, after completed / failed / rejected frame) x 8 front ends, run on the real decoder. Oracle: RFC window formula; rejections must be WindowSizeTooBig with (declared window, effective limit); a counting allocator checks that a rejected call requested no window sized memory (largest request < 64 KiB, total <= 256 KiB).",
      "Frames are a header plus an empty last raw block. On the reuse path windows above 1 GiB are only exercised with rejecting limits (acceptance reserves the window eagerly).",
@@ -122,6 +122,7 @@ def main():
         "engines": [
             {"name": "mon", "path": "harness/mon", "serves_properties": claimed, "kind_free_text": "Rust monitor binary (one sub-command per property) driving the real ruzstd code; built as rel / chk (debug assertions + overflow checks) / asan (AddressSanitizer, nightly)"},
             {"name": "wlcore+mirimon", "path": "harness/wlcore, harness/miri", "serves_properties": [p for p in claimed if p in ("C04", "C03", "C01")], "kind_free_text": "FFI free workloads and online checkers shared by the native monitors and the binary that runs under Miri"},
+            {"name": "fz", "path": "harness/fz", "serves_properties": [p for p in claimed if p in ("C03", "C04")], "kind_free_text": "cargo-fuzz (libFuzzer + AddressSanitizer + debug assertions) targets that drive the wlcore workloads under coverage guidance; artifacts are re-judged by the native monitor"},
             {"name": "zspec", "path": "harness/zspec", "serves_properties": [p for p in claimed if p in ("C01", "C03", "C05", "C06", "C07", "C08", "C09", "C10", "C12", "C13", "C15")], "kind_free_text": "independent executable model of RFC 8878 (strict frame walker + frame synthesiser), self-tested against libzstd on every run"},
             {"name": "check", "path": "check", "serves_properties": claimed, "kind_free_text": "Python driver: rebuilds the monitors from /repo's working tree, runs the steps of a property, merges evidence, prints verdict lines"},
         ],
